@@ -970,6 +970,45 @@ def _digit_guarded(F, target_elem, expr_text, var_ids):
     return False
 
 
+def _length_is_digit_span(F, length, src, depth=0):
+    """the length expression is strspn(src, <decimal digits>) - directly, through a local, or clamped to a constant"""
+    n = strip(length)
+    if n is None or depth > 3:
+        return False
+    if n.k == 'CallExpr' and n.get('callee') == 'strspn' and len(n.ch) > 2:
+        lit = strip(n.ch[2])
+        return lit is not None and lit.k == 'StringLiteral' and set(lit.get('s') or 'x') <= set('0123456789') and \
+            render(strip(n.ch[1])) == render(strip(src))
+    if n.k == 'ConditionalOperator':
+        arms = [x for x in n.ch[1:] if 'v' not in strip(x).d]
+        return bool(arms) and all(_length_is_digit_span(F, x, src, depth + 1) for x in arms)
+    d = decl_of(n)
+    if d is not None and d.get('kind') == 'var':
+        spans, clamps = 0, 0
+        for x in def_exprs(F, d['id']):
+            if _length_is_digit_span(F, x, src, depth + 1):
+                spans += 1
+                continue
+            # `if (len > MAX) len = MAX;`: a clamp downwards keeps it a prefix of the run of digits
+            asg = x.parent
+            while asg is not None and not (asg.k == 'BinaryOperator' and asg.get('op') == '='):
+                asg = asg.parent
+            iff = asg.parent if asg is not None else None
+            while iff is not None and iff.k not in ('IfStmt', 'FunctionDecl'):
+                iff = iff.parent
+            cnd = strip(iff.sub('cond')) if iff is not None and iff.k == 'IfStmt' else None
+            okc = False
+            if cnd is not None and cnd.k == 'BinaryOperator' and cnd.get('op') in ('>', '<', '>=', '<='):
+                a_, b_ = strip(cnd.ch[0]), strip(cnd.ch[1])
+                big, small = (a_, b_) if cnd['op'] in ('>', '>=') else (b_, a_)
+                okc = (decl_of(big) or {}).get('id') == d['id'] and render(small) == render(strip(x))
+            if not okc:
+                return False
+            clamps += 1
+        return spans >= 1
+    return False
+
+
 def _only_digit_stores(F, buf_id, skip_call, depth=0):
     """every store into the buffer (a local array of F, or the object a pointer parameter of F points to) writes 0
     or a character that has just passed isdigit(); a program function the buffer is handed to is held to the same"""
@@ -978,6 +1017,11 @@ def _only_digit_stores(F, buf_id, skip_call, depth=0):
     helpers = 0
     for cl, i, a in pt.pointer_args():
         if cl is skip_call or _const_param(cl, i):
+            continue
+        if i == 0 and cl.get('callee') in ('memcpy', 'strncpy', '__builtin_memcpy', '__builtin_strncpy') and len(cl.ch) > 3 and \
+                _length_is_digit_span(F, cl.ch[3], cl.ch[2]):
+            # the first n characters of the text, n being the length of its leading run of digits
+            helpers += 1
             continue
         t = PROG[0].func(cl.get('callee'), F.tu) if cl.get('callee') and PROG[0] is not None else None
         if t is None or depth >= 2 or i >= len(t.params):
